@@ -979,7 +979,11 @@ fn gen_arg(rng: &mut Rng, g: G, seq: usize) -> Arg {
         G::MArch => Arg::S(rng.s(&["same", "foreign", "no", "allowed"]).to_string()),
         G::Bool => Arg::B(rng.chance(1, 2)),
         G::Num => Arg::N(rng.below(100000) + seq),
-        G::Words => Arg::L((0..1 + rng.below(3)).map(|_| w(rng)).collect()),
+        G::Words => {
+            // now and then a list long enough to pass any line-folding threshold
+            let n = if rng.chance(1, 8) { 10 + rng.below(15) } else { 1 + rng.below(3) };
+            Arg::L((0..n).map(|_| w(rng)).collect())
+        }
         G::Lines => Arg::L((0..1 + rng.below(3)).map(|i| format!("l{seq}{i} {}", w(rng))).collect()),
         G::Md5s | G::Sha1s | G::Sha256s | G::Sha512s => {
             let n = match g {
@@ -1057,6 +1061,15 @@ impl Scenario for C15 {
                 let k = 1 + rng.below(paras.len() - 1);
                 paras.rotate_left(k);
                 text = paras.join("\n");
+            }
+        }
+        // layout at the end of the file: a trailing comment line, no final newline
+        if kind != "dep3" && !text.is_empty() {
+            if rng.chance(1, 8) {
+                text.push_str(rng.s(&["# trailing note\n", "#\n", "# a\n# b\n"]));
+            }
+            if rng.chance(1, 6) && text.ends_with('\n') {
+                text.pop();
             }
         }
         let from_scratch = kind == "control" && rng.chance(1, 10);
